@@ -13,7 +13,7 @@ L3  StoreMon.tla replays recorded histories of the real memory / OCI-layout / fi
 import json
 import os
 
-from vlib import Infra, go_test, l1, log, monitor, read_ndjson, report, trace_of
+from vlib import Infra, go_test, l1, log, monitor, read_ndjson, report, trace_any, trace_of
 
 MUT = ("push", "tag", "untag", "delete", "gc", "stray", "strayalt")
 
@@ -140,7 +140,7 @@ def run(ctx, replay=None):
                 "distinct_nontrivial counts distinct histories (store kind, universe, options, operation sequence) with "
                 "at least 5 operations",
         "traces_validated_against_impl": summ["histories"],
-        "samples": [{"scenario": mid, "trace": trace_of(summ["files"][0], mid["id"], 40)}],
+        "samples": [{"scenario": mid, "trace": trace_any(summ["files"], mid["id"], 40)}],
         "histories": summ["histories"], "per_kind": summ["per_kind"], "exhaustive": False,
         "concurrent_tails": sum(1 for s in scen if s.get("par")),
     })
